@@ -2215,3 +2215,13 @@ func (r *ZoneResult) LowerConst(at ssa.Instruction, v ssa.Value) (int64, bool) {
 	l, _, okL, _ := r.an.interval(z, v)
 	return l, okL
 }
+
+// UpperConst: least c with v <= c known before at.
+func (r *ZoneResult) UpperConst(at ssa.Instruction, v ssa.Value) (int64, bool) {
+	z := r.before[at]
+	if z == nil {
+		return 0, true
+	}
+	_, h, _, okH := r.an.interval(z, v)
+	return h, okH
+}
